@@ -96,6 +96,8 @@ def plan(ctx):
         n = N
         if c['heavy']:
             n = 2 if ctx.quick() else 4     # star nested in star: cost grows with N^2 unwindings
+            if c['name'] == 'list_tail3' and ctx.quick():
+                n = 3                       # element, separator, element, padding: the shortest input on which trailing padding matters needs 3 positions
         text, low, seen = symgen.harness_text(c, n, K, doc, maxres=3, variants=('ar', 'ao', 'nr', 'no'), bytes_=c['bytes'], k2=c['k2'])
         h = ctx.write('h_%s.c' % c['name'], text)
         groups = (('ar', 'ao', 'nr', 'no'),) if (ctx.quick() and not c['heavy']) else (('ar', 'ao'), ('nr', 'no'))
